@@ -22,4 +22,21 @@ theorem mapRes_err {α β : Type} (p : Parser α) (g : α → Option β) (i : By
     Parser.mapRes p g i = .err := by
   unfold Parser.mapRes; rw [h]
 
+theorem spell_nil' (u : Bytes) : spell u [] = u := by cases u <;> rfl
+
+theorem spell_append (a b : Bytes) (m : List Bool) :
+    spell (a ++ b) m = spell a m ++ spell b (m.drop a.length) := by
+  induction a generalizing m with
+  | nil => cases m <;> simp [spell]
+  | cons c cs ih =>
+    cases m with
+    | nil => simp [spell, spell_nil']
+    | cons k ks => simp [spell, ih]
+
+theorem spell_cons (c : UInt8) (t : Bytes) (m : List Bool) :
+    ∃ c', spell (c :: t) m = c' :: spell t m.tail ∧ (c' = c ∨ c' = flipCase c) := by
+  cases m with
+  | nil => exact ⟨c, by simp [spell, spell_nil'], Or.inl rfl⟩
+  | cons k ks => cases k <;> simp [spell]
+
 end RT
